@@ -180,9 +180,9 @@ where
 {
     fn encode(&mut self, item: EncItem) -> Result<Vec<u8>> {
         let Some(e) = E::from_enc(item) else { anyhow::bail!("bad item") };
-        let mut dst = BytesMut::new();
+        let (mut dst, p) = crate::util::dst_stream();
         self.fr.as_mut().get_mut().decoder_mut().encode(e, &mut dst)?;
-        Ok(dst.to_vec())
+        crate::util::dst_take(dst, p)
     }
 
     fn feed(&mut self, rt: &tokio::runtime::Runtime, piece: &[u8]) -> Events {
